@@ -412,11 +412,21 @@ func c02bodyCopy(c *Ctx, a *procAnchors, rule string) {
 		vals, cnt := allocStores(al)
 		var bad []string
 		var src ssa.Value
+		whole := wholeCopyOf(al)
 		for _, f := range fields {
 			if f == "Signatures" {
 				continue
 			}
 			v := vals[f]
+			if v == nil && whole != nil {
+				// `signed := *ourVAA`: the field comes with the whole-struct copy
+				if src == nil {
+					src = stripPhi(whole)
+				} else if facts.Term(src) != facts.Term(whole) {
+					bad = append(bad, f+" copied from a different source "+facts.Term(whole))
+				}
+				continue
+			}
 			base, fld := fieldLoad(v)
 			if v == nil || cnt[f] != 1 || fld == nil || fld.Name() != f {
 				bad = append(bad, f+" = "+termOrNil(v))
